@@ -15,7 +15,7 @@ from . import terms as T
 from .terms import Poly, Cond, P, C, ZERO, ONE
 from . import arr as A
 from .arr import Arr, ModelError, ShapeError, is_scalar
-from .values import (ClassInfo, Obj, SList, SRange, Delayed, FuncVal, BoundMethod,
+from .values import (ClassInfo, Obj, SList, SRange, Delayed, FuncVal, BoundMethod, Bag, BagMap,
                      PyRaise, Opaque)
 from . import npmodel as N
 
@@ -92,6 +92,7 @@ class Interp:
         self.inplace_sites = []
         self.writes = []          # (location, origin regions written in place, kind)
         self.loc = "?"
+        N.NPRandom.count = 0
         self.np = N.NP("numpy")
         self.da = N.NP("dask")
         self.np._interp = self
@@ -275,7 +276,7 @@ class Interp:
                 return isinstance(x, float)
         if isinstance(t, Opaque):
             if t.name.endswith("Bag"):
-                return getattr(x, "is_bag", False)
+                return getattr(x, "is_bag", False) is True
             if t.name.endswith("Array"):
                 return isinstance(x, Arr) and x.kind == "dask"
             return False
@@ -687,7 +688,7 @@ class Interp:
             raise PyRaise("AttributeError", "'%s' object has no attribute '%s'" % (type(v).__name__, name))
         if isinstance(v, SList):
             if name == "append":
-                raise Unsupported("append to a symbolic list outside a summarised loop")
+                return v.append
             raise Unsupported("list attribute %s" % name)
         if isinstance(v, Delayed):
             if name == "persist":
@@ -1046,16 +1047,37 @@ class Interp:
 
         def elem(i, it=it):
             sub = Env(env.module, {}, env)
+            if isinstance(i, Poly) and T.symname(i) is not None:
+                self.assumed.add(T.cmp_cond("<=", ZERO, i))
+                self.assumed.add(T.cmp_cond("<", i, n))
             self.assign(g.target, it.elem(i), sub)
             return body(sub)
         if g.ifs:
             def filt(i, it=it):
                 sub = Env(env.module, {}, env)
+                if isinstance(i, Poly) and T.symname(i) is not None:
+                    self.assumed.add(T.cmp_cond("<=", ZERO, i))
+                    self.assumed.add(T.cmp_cond("<", i, n))
                 self.assign(g.target, it.elem(i), sub)
                 cs = [self.ev(c, sub) for c in g.ifs]
                 return T.c_and(*[C(c) if isinstance(c, (Cond, Poly)) else (T.TRUE if c else T.FALSE) for c in cs])
-            return SList(n, elem, filt=filt, base_len=n)
-        return SList(n, elem)
+            return self.eager_slist(n, elem, filt)
+        return self.eager_slist(n, elem, None)
+
+    def eager_slist(self, n, elem, filt):
+        """Python evaluates a comprehension when it is reached: evaluate the generic
+        element NOW (names and objects as they are at this point) and instantiate it per index"""
+        from .loops import subst_value
+        i0 = T.fresh("c")
+        name = T.symname(i0)
+        val = elem(i0)
+        f0 = filt(i0) if filt is not None else None
+
+        def el(j):
+            return subst_value(val, {name: P(j)})
+        if filt is not None:
+            return SList(n, el, filt=lambda j: T.subst(C(f0), {name: P(j)}), base_len=n)
+        return SList(n, el)
 
     def as_symbolic_iter(self, it):
         if isinstance(it, (SList, SRange)):
